@@ -86,7 +86,8 @@ type Session struct {
 	mu       sync.Mutex
 	tasks    []*Task
 	byGID    map[int64]*Task
-	spawning int
+	spawning int // harness tasks started by Go that have not registered yet
+	adopting int // go statements executed by tasks whose goroutine has not called Adopt yet
 	event    chan struct{}
 	pass     atomic.Bool // pass-through: yields return at once
 	trace    []string
@@ -181,7 +182,7 @@ func (s *Session) Spawn() {
 	}
 	s.mu.Lock()
 	if _, ok := s.byGID[GoID()]; ok {
-		s.spawning++
+		s.adopting++
 	}
 	s.mu.Unlock()
 }
@@ -193,13 +194,13 @@ func (s *Session) Adopt(label string) {
 		return
 	}
 	s.mu.Lock()
-	if s.spawning == 0 {
+	if s.adopting == 0 {
 		s.mu.Unlock()
 		return
 	}
-	// A goroutine started by a non-task while a task spawn is pending would
-	// be mis-adopted; the harness never runs such non-task code concurrently.
-	s.spawning--
+	// A goroutine started by a non-task while a task's go statement is pending
+	// would be mis-adopted; the harness never runs such non-task code concurrently.
+	s.adopting--
 	gid := GoID()
 	t := &Task{Name: label, Adopted: true, grant: make(chan struct{}, 1), state: Running, gid: gid}
 	t.ID = len(s.tasks)
@@ -366,7 +367,7 @@ func (s *Session) settle() []*Task {
 	spins := 0
 	for {
 		s.mu.Lock()
-		pending := s.spawning
+		pending := s.spawning + s.adopting
 		unsettled := 0
 		for _, t := range s.tasks {
 			if t.state == Running || t.state == Blocked {
